@@ -65,21 +65,22 @@ def n_step_names(models: Dict[int, List[Ev]]) -> int:
 
 
 def loaded(models: Dict[int, List[Ev]], inc_last: bool = False) -> Loaded:
+    """The trailing (usually incomplete) iteration is cut off per rank: a rank that recorded at least two profiler steps keeps the
+    host events starting before its last step (or, on request, no later than that step's end) and the device activities they
+    launched; a rank with fewer steps keeps everything."""
     out = Loaded()
     out.min_ts = min(e.ts for m in models.values() for e in m)
-    out.trimmed = n_step_names(models) >= 2
+    out.trimmed = False
     for r, m in models.items():
         out.iteration[r] = iterations(m)
-        if not out.trimmed:
-            out.kept[r] = list(m)
-            continue
         host = [e for e in m if not e.device_side]
         dev = [e for e in m if e.device_side]
         steps = [e for e in host if isinstance(e.name, str) and "ProfilerStep" in e.name]
-        if not steps:
+        if len({e.name for e in steps}) < 2:
             out.last_step_start[r] = out.last_step_end[r] = None
-            out.kept[r] = []                                    # statement is silent (ranks with different step sets)
+            out.kept[r] = list(m)
             continue
+        out.trimmed = True
         ls = max(e.ts for e in steps)
         le = max(e.end for e in steps)
         out.last_step_start[r], out.last_step_end[r] = ls, le
